@@ -19,6 +19,7 @@ MCTxs == [price : Prices, gl : GasLimits, dl : DataLens, value : Values, bi : {0
 
 \* price modifiers num/den (cfg files cannot contain tuples)
 ModsQuick    == {<<1, 1>>, <<1, 2>>, <<1, 3>>, <<2, 3>>}
+ModsGen      == {<<1, 1>>, <<1, 2>>, <<1, 3>>}
 ModsThorough == {<<1, 1>>, <<1, 2>>, <<1, 3>>, <<2, 3>>, <<1, 5>>, <<3, 4>>}
 
 LogAppend(h, r) == Append(h, r)
